@@ -299,6 +299,23 @@ def scn_history(ctx):
             name = "reject"
         else:  # 5: bring another object into play: same version, or another shipped version
             nv = v0 if ch.draw(3, "other_version") == 0 else VERSIONS[ch.draw(3, "new_version")]
+            cp = ch.draw(5, "copy_object")
+            if cp >= 3:
+                # an object is replaced by a copy of itself (deepcopy / pickle round trip)
+                import copy
+                import pickle
+
+                k = ch.draw(len(objs), "copy_which")
+                ov, oo = objs[k]
+                try:
+                    o2 = copy.deepcopy(oo) if cp == 3 else pickle.loads(pickle.dumps(oo))
+                    monos[id(o2)] = monos.get(id(oo))
+                    objs[k] = (ov, o2)
+                    ctx.probes["object_replaced_by_" + ("deepcopy" if cp == 3 else "pickle_round_trip")] += 1
+                except Exception:  # noqa: BLE001
+                    ctx.probes["object_copy_failed"] += 1
+                ctx.log(f"op{opi} copy-object #{k} how={cp}")
+                continue
             if len(objs) < 4 and ch.draw(2, "replace_object") == 0:
                 objs.append((nv, new_obj(nv)))
                 ctx.log(f"op{opi} new-object table={nv} n={len(objs)}")
